@@ -88,14 +88,14 @@ class Harness(cm.BaseA):
         return {"wl": wl, "files": files}
 
     def core_events(self, W, config):
-        return EMIT[:4] + EMIT[10:11] + EMIT[12:13] + [["save", "w.gwl", "str"], ["save", "W.GWL", "Path"], ["save", "w.txt", "str"], ["save", "other.gwl", "str"], ["enter"], ["exit", False], ["exit", True], ["foreign", "w.gwl"], ["foreign", "w.gwl", "lf"]]
+        return EMIT[:4] + EMIT[10:11] + EMIT[12:13] + [["save", "w.gwl", "str"], ["save", "W.GWL", "Path"], ["save", "w.txt", "str"], ["save", "other.gwl", "str"], ["enter"], ["exit", False], ["exit", True], ["foreign", "w.gwl"], ["foreign", "w.gwl", "lf"], ["foreign", "w.txt"]]
 
     def full_events(self, W, config):
         ev = list(EMIT if config["cls"] != "FluentWorklist" else EMIT[:11] + EMIT[12:])
         for n in NAMES:
             for t in ("str", "Path"):
                 ev.append(["save", n, t])
-        ev += [["enter"], ["exit", False], ["exit", True], ["with_raise"], ["foreign", "w.gwl"], ["foreign", "other.gwl"], ["foreign", "w.gwl", "lf"], ["foreign", "w.gwl", "cr"], ["foreign", "w.gwl", "mixed"], ["foreign", "W.GWL", "crlf+"]]
+        ev += [["enter"], ["exit", False], ["exit", True], ["with_raise"], ["foreign", "w.gwl"], ["foreign", "other.gwl"], ["foreign", "w.gwl", "lf"], ["foreign", "w.gwl", "cr"], ["foreign", "w.gwl", "mixed"], ["foreign", "W.GWL", "crlf+"], ["foreign", "w.txt"], ["foreign", "w"]]
         if W.get("n", 0) > 1:
             return ev
         # long scripts (block-wise writers, buffer boundaries): only from states reached by <= 1 event
